@@ -380,6 +380,26 @@ package table
 //@   at-call append(cs[:i], cs[i+1:]...) requires i < len(cs) && cs[i] != nil && cs[i].Type() == x.Type()
 //@   at-call append(as[:i], as[i+1:]...) requires i < len(as) && as[i] != nil && as[i].Type() == x.Type()
 
+// from C10 "what is read back equals what was configured": statements hold the defined-set objects they were
+// resolved to, so the object registered under a name is never exchanged for another one while it exists - a
+// replace changes its contents (DefinedSet.Replace) - or the sets read back and the sets evaluated differ
+//@ interface DefinedSet.Type
+//@   pure
+//@ interface DefinedSet.Name
+//@   pure
+// (assumed, not proved, for the implementations: Append / Replace of a set write only through their receiver -
+// none of them can reach the policy's map of sets)
+//@ interface DefinedSet.Append
+//@   modifies self.*
+//@   unverified PrefixSet NextHopSet NeighborSet AsPathSet CommunitySet ExtCommunitySet LargeCommunitySet
+//@ interface DefinedSet.Replace
+//@   modifies self.*
+//@   unverified PrefixSet NextHopSet NeighborSet AsPathSet CommunitySet ExtCommunitySet LargeCommunitySet
+//@ func (*RoutingPolicy).AddDefinedSet
+//@   requires r != nil && s != nil
+//@   claims post
+//@   ensures has(old(r.definedSetMap), s.Type()) && has(old(r.definedSetMap[s.Type()]), s.Name()) ==> r.definedSetMap[old(s.Type())][old(s.Name())] == old(r.definedSetMap[s.Type()][s.Name()])
+
 // from C16: the verdict as the policy condition uses it. ROATable.Validate gives no verdict (nil) for withdrawals and
 // for families that have no ROA table (everything but IPv4/IPv6 unicast); the rpki condition, which is evaluated for
 // every family, must not dereference that
